@@ -520,3 +520,41 @@ def g_zlimb(rng, n, fmts=('f64',)):
             if -2 ** 31 <= e < 2 ** 31:
                 out.append(PF(fmt, i, f, e, 'G-ZLIMB'))
     return out
+
+
+def g_limbmid(rng, fmts=('f64', 'f32'), groups=False):
+    """integer rounding boundaries whose bit length is at (or one off) a multiple of the limb size:
+    M = (2*sig+1) * 2^(L-p-1) with L in {64k-1, 64k, 64k+1, 32(2k+1)}, sig even / odd / all-ones /
+    random, and M +- 2^b for b at the limb fence posts below the boundary (0, 31, 32, 63, 64, ...),
+    plus M + 0.5 and M - 0.5 written with a fraction.  Deterministic apart from the random sig.
+    These are the inputs on which the normalising shifts of hi64 (shift 0, shift 63, next limb
+    only) and the 'truncated' flags of the big-integer comparison decide the result.
+    groups=True returns lists of cases (one per boundary) whose values are pairwise comparable."""
+    out = []
+    for fmt in fmts:
+        F = FMT[fmt]
+        p, emax = F['p'], F['emax']
+        Ls = set()
+        for k in range(1, 17):
+            for L in (64 * k - 1, 64 * k, 64 * k + 1, 64 * k - 32):
+                if p + 2 <= L <= emax:
+                    Ls.add(L)
+        for L in sorted(Ls):
+            sigs = [1 << (p - 1), (1 << (p - 1)) + 1, (1 << p) - 2, (1 << (p - 1)) + rng.bits(p - 1)]
+            if L < emax:
+                sigs.append((1 << p) - 1)
+            for sig in sigs:
+                sh = L - p - 1
+                M = (2 * sig + 1) << sh
+                g = [PF(fmt, str(M), '', 0, 'G-LIMB/tie'), PF(fmt, str(M), '5', 0, 'G-LIMB/tie+.5'),
+                     PF(fmt, str(M - 1), '5', 0, 'G-LIMB/tie-.5')]
+                bs = sorted(set(b for b in (0, 1, 31, 32, 33, 63, 64, 65, 127, 128, sh - 1, sh - 64, sh - 65, (sh // 64) * 64, (sh // 64) * 64 - 1) if 0 <= b < sh))
+                for b in bs:
+                    g.append(PF(fmt, str(M + (1 << b)), '', 0, 'G-LIMB/tie+2^b'))
+                    g.append(PF(fmt, str(M - (1 << b)), '', 0, 'G-LIMB/tie-2^b'))
+                # the same boundary reached through a power of ten: M*10 written with exponent -1
+                g.append(PF(fmt, str(M + 1) + '0', '', -1, 'G-LIMB/tie+1,e-1'))
+                out.append(g)
+    if groups:
+        return out
+    return [c for g in out for c in g]
